@@ -263,8 +263,10 @@ func (r *router) Group(routePath string, fn func(), handlers ...Handler) {
 			handlers: handlers,
 		},
 	)
+	// Pop the group even if fn panics, a caller that recovers must not keep
+	// registering routes inside of this group.
+	defer func() { r.groups = r.groups[:len(r.groups)-1] }()
 	fn()
-	r.groups = r.groups[:len(r.groups)-1]
 }
 
 func (r *router) Get(routePath string, handlers ...Handler) *Route {
